@@ -27,5 +27,5 @@ def run(rep, tier, seed):
     # the library's own body writer: data is written escaped for & < > and otherwise verbatim (shaped trees, symbolic data)
     run_contracts(rep, "contracts.writers", tier, seed)
     # ... and all four body writers against the strict reference tokenizer on enumerated trees (bounded)
-    run_contracts(rep, "contracts.roundtrip_native", tier, seed, select=lambda c: c.target.endswith("tostring_unclosed_elements"), accept_props=["C01"])
+    run_contracts(rep, "contracts.roundtrip_native", tier, seed, accept_props=["C01"])      # incl. whole files: data on the wire holds no raw & or <
     replay_known_findings(rep)
